@@ -103,6 +103,9 @@ CONFIGS = [('interp', 0), ('interp', 1), ('interp', 2), ('compiled', 0), ('compi
 def texts_task(d, texts, names, chunks=(None,), configs=None):
     st = Stats()
     for text in texts:
+        if st.n.get('hangs', 0) >= 3:
+            st.inc('skipped_after_hangs')
+            continue        # three runs ran into the time limit: more of the same would only cost hours
         data = text.encode('utf-8')
         for name in names:
             exp = expected_output(name, text).encode('utf-8')
@@ -116,6 +119,8 @@ def texts_task(d, texts, names, chunks=(None,), configs=None):
                     chunk, empty_after = len(text[0].encode('utf-8')), 0
                 rc, out, err = run_cfg(d, name, cfg, data, chunk=chunk, empty_after=empty_after)
                 st.inc('runs')
+                if rc == 'timeout':
+                    st.inc('hangs')
                 if chunk:
                     st.inc('runs_chunked_stdin')
                 if len(st.samples) < 3 and len(text) <= 8:
